@@ -54,4 +54,5 @@ registry! {
     c29::C29,
     c31::C31,
     c32::C32,
+    c33::C33,
 }
